@@ -73,6 +73,9 @@ pub fn polling_pause_depth() -> u32 {
 fn main() {
     xs::silence_panics();
     let args: Vec<String> = std::env::args().collect();
+    if args.len() >= 3 && args[1] == "unwind-probe" {
+        msgs::unwind_probe_child(&args[2]);
+    }
     if args.len() < 2 {
         eprintln!("usage: hm <ID> [--tier quick|thorough] | hm replay <file>");
         std::process::exit(2);
